@@ -445,7 +445,6 @@ pub mod spec_rdata {
             lemma_dec_valid(msg, cursor);
             lemma_name_len_at_concat(e, w, e);
             assert(e + w + e =~= w);
-            assert(valid(class, ty, out));
         } else if ty == T_A && class == CLASS_CH {
             let (w, n) = cname_at(msg, cursor)->Some_0;
             let t = tail(msg, cursor + n);
@@ -453,7 +452,6 @@ pub mod spec_rdata {
             lemma_dec_bounds(msg, cursor);
             lemma_name_len_at_concat(e, w, t);
             assert(e + w + t =~= w + t);
-            assert(valid(class, ty, out));
         } else if ty == T_SOA {
             let (w1, n1) = cname_at(msg, cursor)->Some_0;
             let (w2, n2) = cname_at(msg, cursor + n1)->Some_0;
@@ -465,7 +463,6 @@ pub mod spec_rdata {
             lemma_name_len_at_concat(e, w1, w2 + t);
             lemma_name_len_at_concat(w1, w2, t);
             assert(e + w1 + (w2 + t) =~= w1 + w2 + t);
-            assert(valid(class, ty, out));
         } else if ty == T_MINFO {
             let (w1, n1) = cname_at(msg, cursor)->Some_0;
             let (w2, n2) = cname_at(msg, cursor + n1)->Some_0;
@@ -475,23 +472,63 @@ pub mod spec_rdata {
             lemma_name_len_at_concat(w1, w2, e);
             assert(e + w1 + w2 =~= w1 + w2);
             assert(w1 + w2 + e =~= w1 + w2);
-            assert(valid(class, ty, out));
         } else if ty == T_MX {
             let (w, n) = cname_at(msg, cursor + 2)->Some_0;
             let p = msg.subrange(cursor, cursor + 2);
             lemma_dec_valid(msg, cursor + 2);
             lemma_name_len_at_concat(p, w, e);
             assert(p + w + e =~= p + w);
-            assert(valid(class, ty, out));
         } else if ty == T_SRV && class == CLASS_IN {
             let (w, n) = cname_at(msg, cursor + 6)->Some_0;
             let p = msg.subrange(cursor, cursor + 6);
             lemma_dec_valid(msg, cursor + 6);
             lemma_name_len_at_concat(p, w, e);
             assert(p + w + e =~= p + w);
-            assert(valid(class, ty, out));
         } else {
-            assert(valid(class, ty, out));
         }
+    }
+
+    // -------------------------------------------------- examples (spec sanity)
+    // Concrete members and non-members of the predicates, so that a predicate
+    // that is accidentally constant would be noticed.
+
+    pub proof fn examples_valid_form()
+    {
+        // IN A: exactly four octets
+        assert(valid(CLASS_IN, T_A, seq![192u8, 0, 2, 1]));
+        assert(!valid(CLASS_IN, T_A, seq![192u8, 0, 2]));
+        // NS "." is valid; a name cut short or followed by junk is not
+        let root = seq![0u8];
+        assert(tail(root, 0) =~= root);
+        assert(valid(CLASS_IN, T_NS, root));
+        let cut = seq![1u8];
+        assert(tail(cut, 0) =~= cut);
+        assert(!valid(CLASS_IN, T_NS, cut));
+        let junk = seq![0u8, 7];
+        assert(tail(junk, 0) =~= junk);
+        assert(!valid(CLASS_IN, T_NS, junk));
+        // MX 10 "."
+        let mx = seq![0u8, 10, 0];
+        assert(tail(mx, 2) =~= seq![0u8]);
+        assert(valid(CLASS_IN, T_MX, mx));
+        assert(!valid(CLASS_IN, T_MX, seq![0u8]));
+        // TXT: at least one <character-string>
+        assert(!valid(CLASS_IN, T_TXT, Seq::<u8>::empty()));
+        let txt = seq![1u8, 65];
+        assert(cstr_len_at(txt, 0) == Some(2int));
+        assert(cstrs_from(txt, 2));
+        assert(valid(CLASS_IN, T_TXT, txt));
+        let txt_short = seq![2u8, 65];
+        assert(!valid(CLASS_IN, T_TXT, txt_short));
+        // OPT: no options is fine, a truncated option header is not
+        assert(valid(CLASS_IN, T_OPT, Seq::<u8>::empty()));
+        let opt_bad = seq![0u8, 1, 0];
+        assert(option_len_at(opt_bad, 0) is None);
+        assert(!valid(CLASS_IN, T_OPT, opt_bad));
+        // unknown type: opaque up to 65535 octets
+        assert(valid(CLASS_IN, 65280, seq![1u8, 2, 3]));
+        // AAAA is only known in class IN
+        assert(!valid(CLASS_IN, T_AAAA, seq![1u8]));
+        assert(valid(CLASS_CH, T_AAAA, seq![1u8]));
     }
 }
